@@ -200,8 +200,19 @@ Print Assumptions dist_reject_identity_postfix.
 
 (* the model in force is the current code *)
 Theorem model_follows_current_source :
-  FIX_NULL_FIRST = false /\ FIX_MERGE_PORTS = false /\ FIX_BY_NAME_KIND = false.
+  FIX_NULL_FIRST = false /\ FIX_MERGE_PORTS = false /\ FIX_BY_NAME_KIND = false /\ FIX_XML_KIND_ZERO = false.
 Proof. auto. Qed.
+
+(* kind 0 passes add_create but the XML import refuses it (the whole load fails) *)
+Theorem xml_roundtrip_kind_zero_refuted :
+  exists t d, t_dists t = [d] /\ kind_okb (d_kind d) = true /\ d_valid d = true /\
+              xml_roundtrip t (t_objs t) (t_levels t) = Err EINVAL.
+Proof.
+  exists (Topo [Obj HWLOC_OBJ_NUMANODE 8 0 false; Obj HWLOC_OBJ_NUMANODE 16 1 false] [HWLOC_OBJ_MACHINE]
+       [IDist None 0 0 HWLOC_OBJ_NUMANODE None 2 [0%N; 1%N]
+              [Some (Obj HWLOC_OBJ_NUMANODE 8 0 false); Some (Obj HWLOC_OBJ_NUMANODE 16 1 false)] [1;2;3;4]%N true] 1).
+  eexists. split; [reflexivity|]. vm_compute. auto.
+Qed.
 
 (* ---------------- follow the objects ---------------- *)
 
